@@ -572,6 +572,18 @@ func (e *Explorer) instr(c *clone, in ssa.Instruction) {
 			}
 		}
 		p := c.prov(x.Addr)
+		// a struct stored as a whole carries its provenance into every reference field: the fields are loaded through
+		// FieldAddr under per-field keys (a value receiver spilled to a local - `func (m memo) lookup()` - still holds the
+		// caller's map)
+		if st, isSt := x.Val.Type().Underlying().(*types.Struct); isSt && (p&Fresh != 0) {
+			if vp := c.prov(x.Val); vp != 0 {
+				for i := 0; i < st.NumFields(); i++ {
+					if PointerLike(st.Field(i).Type()) {
+						e.heapAdd(fmt.Sprintf("%s.#%d", typeKey(x.Val.Type()), i), vp)
+					}
+				}
+			}
+		}
 		if _, isAlloc := x.Addr.(*ssa.Alloc); isAlloc {
 			e.heapAdd(e.heapKey(x.Addr), c.prov(x.Val))
 			return
